@@ -418,6 +418,59 @@ func c09Worker(w *W) {
 				w.Count("layout_key_value_checks", 1)
 			}
 		}
+	case "inject":
+		// plain ASCII strings of length 1..40 with one or two special bytes injected at every position:
+		// a fast path that looks at more than 4 bytes at a time (word-at-a-time scans) is not covered by
+		// the short exhaustive window
+		st.useJSON = true
+		specials := []byte{0x00, 0x01, 0x08, 0x09, 0x0a, 0x0d, 0x1e, 0x1f, 0x22, 0x5c, 0x7f, 0x80, 0xbf, 0xc0, 0xc2, 0xe0, 0xed, 0xf0, 0xf4, 0xf5, 0xff}
+		multi := []string{"é", "中", "😀", "\xe2\x82", "\xed\xa0\x80", "\xf0\x9f", "\xef\xbf\xbd", "\u2028"}
+		lens := []int{1, 2, 7, 8, 9, 15, 16, 17, 23, 24, 25, 31, 32, 33, 40}
+		k := 0
+		for _, L := range lens {
+			base := make([]byte, L)
+			for i := range base {
+				base[i] = byte('a' + i%26)
+			}
+			for p1 := 0; p1 < L; p1++ {
+				for _, sp := range specials {
+					k++
+					if k%w.Spec.NShards != w.Spec.Shard {
+						continue
+					}
+					b := append([]byte{}, base...)
+					b[p1] = sp
+					if why := st.check(string(b)); why != "" {
+						report(string(b), why, "inject")
+					}
+					if why := c09layouts(string(b)); why != "" {
+						report(string(b), why, "layout")
+					}
+					// a second special byte further on
+					for _, p2 := range []int{p1 + 1, p1 + 7, p1 + 8, L - 1} {
+						if p2 > p1 && p2 < L {
+							b2 := append([]byte{}, b...)
+							b2[p2] = specials[(k+p2)%len(specials)]
+							if why := st.check(string(b2)); why != "" {
+								report(string(b2), why, "inject")
+							}
+						}
+					}
+				}
+				for _, m := range multi {
+					k++
+					if k%w.Spec.NShards != w.Spec.Shard {
+						continue
+					}
+					str := string(base[:p1]) + m + string(base[p1:])
+					if why := st.check(str); why != "" {
+						report(str, why, "inject")
+					}
+				}
+			}
+		}
+		w.Res.DistinctCount = st.nontriv
+		w.Sample(map[string]any{"space": "plain ASCII strings of 15 lengths (1..40) with one of 21 special bytes / 8 multi-byte sequences at every position, plus a second special byte at +1,+7,+8,end"})
 	case "layoutexh":
 		// every string of length <= 2 as key and value through both encoders
 		for a := 0; a < 256; a++ {
@@ -500,7 +553,7 @@ func init() {
 		ID: "C09", Level: "exploration", MinDistinct: 1000,
 		Rule: "inputs: (a) every byte string of length <= 3 (quick) / <= 4 (thorough) over the full byte alphabet, enumerated exhaustively and sharded by first byte; " +
 			"(b) every string of length 4..6 (quick: 4..5) over the 16-symbol UTF-8 boundary alphabet; (c) seeded random strings of length 7..4096 (raw bytes, boundary-heavy, printable+noise, valid-unicode+noise); " +
-			"(d) every string of length 1..2 as key and value through the JSON and text encoders. Non-trivial = the escaped output differs from the input (an escape, a replacement or a multi-byte decision was needed); " +
+			"(d) every string of length 1..2 as key and value through the JSON and text encoders; (e) plain ASCII strings of 15 lengths up to 40 with one or two special bytes / multi-byte sequences injected at every position (also as keys and values), against scanners that look at more than 4 bytes at a time. Non-trivial = the escaped output differs from the input (an escape, a replacement or a multi-byte decision was needed); " +
 			"distinct_nontrivial = number of non-trivial inputs in the disjoint enumerated spaces (a),(b) + number of distinct byte-class masks seen among (c).",
 		Assumptions: []string{
 			"the escaper is memoryless with <= 4 bytes of look-ahead, so the exhaustive window determines its behaviour on longer strings (argument, not machine-checked; random long strings sample it)",
@@ -541,6 +594,9 @@ func init() {
 			}
 			for i := 0; i < 8; i++ {
 				specs = append(specs, d.NewSpec("layoutexh", fmt.Sprintf("lay-%d", i), i, 8))
+			}
+			for i := 0; i < 4; i++ {
+				specs = append(specs, d.NewSpec("inject", fmt.Sprintf("inj-%d", i), i, 4))
 			}
 			d.RunWorkers(specs, 16)
 			if !d.Quick() {
